@@ -297,7 +297,7 @@ pub fn phases(cfg: &Cfg) -> Vec<Box<dyn Phase>> {
             asts: enumerate_asts(3),
         }),
         Box::new(AstRandom {
-            n: cfg.n(150_000, 6_000_000),
+            n: cfg.n(400_000, 6_000_000),
         }),
     ]
 }
